@@ -16,6 +16,7 @@ import (
 	"sort"
 	"strconv"
 	"strings"
+	"sync"
 	"unicode/utf8"
 
 	"golang.org/x/tools/go/ssa"
@@ -473,15 +474,34 @@ func bytesOf(s string) []value {
 	return out
 }
 
+var (
+	methodCacheMu sync.Mutex
+	methodCache   = map[string]*ssa.Function{}
+)
+
+// findMethod looks up method name in the method set of T (cached: asking
+// the program's MethodSetCache with freshly built pointer types would grow
+// it without bound).
 func (i *interpreter) findMethod(T types.Type, name string) *ssa.Function {
+	key := types.TypeString(T, nil) + "\x00" + name
+	methodCacheMu.Lock()
+	fn, ok := methodCache[key]
+	methodCacheMu.Unlock()
+	if ok {
+		return fn
+	}
 	ms := i.prog.MethodSets.MethodSet(T)
 	for k := 0; k < ms.Len(); k++ {
 		sel := ms.At(k)
 		if sel.Obj().Name() == name {
-			return i.prog.MethodValue(sel)
+			fn = i.prog.MethodValue(sel)
+			break
 		}
 	}
-	return nil
+	methodCacheMu.Lock()
+	methodCache[key] = fn
+	methodCacheMu.Unlock()
+	return fn
 }
 
 type jfield struct {
